@@ -508,7 +508,9 @@ theorem watchInv_step {σ σ' : State} {i : Nat} (h : WatchInv σ) (hs : step σ
   all_goals first
     | (cases hs; done)
     | (cases hs; exact ⟨h.alive, h.reg, h.hold, h.nocad⟩)
-    | (cases hs; constructor <;> simp <;> first | exact h.hold | exact h.nocad)
+    | (cases hs
+       constructor <;> simp <;>
+         first | exact h.alive | exact h.reg | exact h.nocad | simpa using h.hold)
 
 theorem watchInv_of_reachable {σ : State} (h : Reachable σ) : WatchInv σ := by
   induction h with
